@@ -59,7 +59,7 @@ Extensions for markers / _parser / metadata / licenses (x3; the handlers are the
                the element it is at
   state        functions whose first parameter is annotated ``Tokenizer`` run in the state monad ``PyTok.TM``: the tokenizer is
                the state, its methods (``check/read/expect/consume/raise_syntax_error``, ``.position``) are primitives of
-               ``lean/PkgModel/PyTok.lean`` (guarded by a digest of the class's source, ``STATE_GUARD``); the tokenizer may
+               ``lean/PkgModel/PyTok.lean`` (x9: proved equal to the translated methods of the class, see "Ninth round"); the tokenizer may
                only be used as their receiver or handed on to another such function, and not inside a ``try`` body
   oracles      inside the modules listed in ``ORACLE_CALLS`` a call of a listed function / constructor / method
                (``canonicalize_name``, ``Specifier(...)``, ``spec.contains``, ``utils.canonicalize_name``,
@@ -202,6 +202,33 @@ Seventh round (blocks marked `x7`; run-time additions in ``lean/PkgModel/PyX7.le
                ``for k in d`` where ``d`` comes from a call annotated ``-> tuple[…, dict[…]]``; parameters annotated
                ``email.message.Message`` are message *values* (``PyX7.msg_*``): ``del msg[k]`` rebinds the parameter (not seen by the
                caller), ``msg.get_payload(decode=…)``; ``b.decode("utf8", "strict")``
+Ninth round (blocks marked `x9`; run-time additions in ``lean/PkgModel/PyX9.lean``):
+  tokenizer    the methods of ``Tokenizer`` are translated (``self`` is the state of ``PyTok.TM``): ``self.source`` / ``self.position`` /
+               ``self.next_token`` are reads of the state, ``self.next_token = e`` and ``self.position += e`` updates
+               (``PyX9.set_next_token`` / ``advance``), ``name in self.rules`` and ``self.rules[name].match(self.source, self.position)``
+               (also through a local bound once to ``self.rules[name]``) the primitives ``PyX9.has_rule`` / ``rule_match`` over the
+               regenerated rules, ``m[0]`` / ``m.group(0)`` of such a match ``PyX9.match_group0``; ``Token(…)`` (a dataclass of the module
+               built from all its fields in order); ``raise self.m(…)`` (the call, then ``TypeError`` for a value that is no exception);
+               ``raise ParserSyntaxError(…)`` evaluates its arguments; calls of the other methods stay the primitives of PyTok.lean, which
+               ``Src/Tokenizer.lean`` proves equal to the translated methods — ``STATE_GUARD`` is no longer consulted (``__init__`` alone keeps
+               a digest, ``X9_TOKENIZER_INIT_GUARD``: ``PyTok.new``; the class may define nothing else).  A generator behind
+               ``@contextlib.contextmanager`` with one top-level bare ``yield`` is cut there: ``<f>__enter`` returns the local that is live
+               across the ``yield``, ``<f>__exit`` takes it as first parameter (``<f>__with``: the pair around ``self.consume(body)``, for
+               ``src.call``)
+  parse_email  a rewriting pass (``_X9MailRewrite``): ``email.parser.Parser(…).parsestr(x, …)`` / ``BytesParser(…).parsebytes(x, …)`` is an
+               oracle call whose key is the *source text of the call* (``x`` blanked) and whose answer is the message value
+               ``obj "Message" …`` of PyX7.lean; on a local only bound that way: ``.keys()``, ``.get_all(n)``, ``.get_payload(decode=…)``;
+               ``frozenset(msg.keys())`` (plain ``==``), ``email.header.decode_header(h)`` (the chunks the ``Header`` value carries),
+               ``str(email.header.make_header(chunks))`` (``Email.renderChunks`` on ``utf8`` / ``latin1`` chunks),
+               ``isinstance(h, email.header.Header)`` (also true for a header whose ``decode_header`` raises: ``HeaderErr``);
+               ``d.setdefault(k, []).append(x)`` / ``.extend(xs)``, ``d[k].append(x)``, ``x = d.pop(k)`` on an owned dict of lists
+               (functional updates); an expression statement ``b.decode("utf8", "strict")``; a tuple loop target with a component the
+               body rebinds; ``a in <named constant set> and b`` in a value context; storing an owned list into a dict (``d[k] = xs``)
+               inside the loop body that binds ``xs = []`` afresh, after its last in-place update
+  in-out       a library function that deletes headers of a message parameter (``del msg[k]``) is translated a second time as
+               ``<f>__io`` in ``PyX9.SM = ExceptT PyExc (StateM PyVal)`` — the message is the state, reads are ``get`` — when it is called
+               as the whole body of a ``try`` with a message local: ``try: x = f(m, …) except C: … else: …`` becomes a ``match`` on
+               ``PyX9.runSM (f__io …) m`` after ``m`` has been rebound to the message afterwards (no Lean ``try``: nothing is restored)
 Checks made by the translator (a failure makes the function unsupported):
   * a local changed inside a ``try`` body (other than by its last simple statement) must not be read in a handler or after
     a handler that falls through: Lean's ``try … catch`` restores the locals of the ``try`` start;
@@ -658,6 +685,41 @@ CONSUMERS |= {"ExceptionGroup"}          # copies the sequence into a tuple
 SELECTED += [("_get_payload", "packaging.metadata", "_get_payload")]
 X7_MESSAGE_ANN = ["email", "message", "Message"]
 # --- x7 end -----------------------------------------------------------------------------------------------------------
+# --- x9: ninth round (the `Tokenizer` methods, C07/C08/C09; the main loop of `parse_email`, C18) — run-time: lean/PkgModel/PyX9.lean
+X9_IMPORT = "PkgModel.PyX9"
+# the methods of the tokenizer are translated (state monad, `self` is the state); what stays primitive: the fields of the state
+# (`self.source`, `self.position`, `self.next_token`) and `self.rules[name].match(self.source, self.position)` over the
+# regenerated rules.  `Src/Tokenizer.lean` proves each translated method equal to the primitive of PyTok.lean that the
+# translated parser functions call, so the digest guard on the class (`STATE_GUARD`) is no longer consulted.
+SELECTED += [
+    ("Tokenizer.check", "packaging._tokenizer", "Tokenizer.check"),
+    ("Tokenizer.read", "packaging._tokenizer", "Tokenizer.read"),
+    ("Tokenizer.expect", "packaging._tokenizer", "Tokenizer.expect"),
+    ("Tokenizer.consume", "packaging._tokenizer", "Tokenizer.consume"),
+    ("Tokenizer.raise_syntax_error", "packaging._tokenizer", "Tokenizer.raise_syntax_error"),
+    # the generator behind `@contextlib.contextmanager` is cut at its one top-level `yield`: `__enter` returns the local that is
+    # live across the `yield`, `__exit` takes it as its first parameter; `__with` is the pair around `self.consume(body)`
+    ("Tokenizer.enclosing_tokens__enter", "packaging._tokenizer", "Tokenizer.enclosing_tokens"),
+    ("Tokenizer.enclosing_tokens__exit", "packaging._tokenizer", "Tokenizer.enclosing_tokens"),
+    ("Tokenizer.enclosing_tokens__with", "packaging._tokenizer", "Tokenizer.enclosing_tokens"),
+]
+X9_TOKENIZER_TRANSLATED = True      # the `Tokenizer` methods are proof obligations of C07/C08/C09 (no digest guard on the class)
+# `Tokenizer(source, rules=…)` itself stays the primitive `PyTok.new`, while `__init__` has this source (sha256 over its ast); the
+# class may define nothing besides the constructor and the translated methods
+X9_TOKENIZER_INIT_GUARD = "055e2691dfc5cbdc716aff96e948bbc47cd5dcec7407a5da318a6ee09835936d"
+X9_TOKENIZER_METHODS = {"__init__", "check", "read", "expect", "consume", "raise_syntax_error", "enclosing_tokens"}
+X9_STATE_FIELDS = {"source": "PyX9.source", "next_token": "PyX9.next_token"}
+# x9: `parse_email` (C18).  A rewriting pass (`_X9MailRewrite`) brings the loop into the subset: the standard-library parser call is
+# an oracle call under the *source text of the call* (the message it returns is the value `obj "Message" …` of PyX7.lean), the
+# methods of that message and `email.header.decode_header` / `str(email.header.make_header(…))` are primitives of PyX9.lean over
+# the data the message value carries, `d.setdefault(k, []).append/extend`, `d[k].append`, `d.pop(k)` on the two owned dicts of lists
+# are functional updates.  A callee that changes the message it is given (`del msg[k]` in `_get_payload`) is translated a second
+# time into `PyX9.SM` (`<name>__io`: the message is the *state*, so the caller sees the change also when the call raises), and
+# `try: x = f(msg, …) except C: … else: …` around such a call becomes a `match` on `PyX9.runSM` — no Lean `try`, so no local is lost.
+SELECTED += [("parse_email", "packaging.metadata", "parse_email")]
+X9_MAIL_FUNCTIONS = {("packaging.metadata", "parse_email")}
+X9_SM = "PyX9.SM"
+# --- x9 end -----------------------------------------------------------------------------------------------------------
 
 
 # ---------------------------------------------------------------------------------------------- one function
@@ -1500,6 +1562,8 @@ class Fn:
                     ok = True                                    # truth test
                 elif isinstance(p, ast.BoolOp) and isinstance(parents.get(p), (ast.If, ast.UnaryOp)):
                     ok = True                                    # truth test inside a condition
+                elif self.x9_list_alias_ok(n, p, body):          # x9
+                    ok = True
                 if not ok:
                     raise Unsupported(f"{n.id} is mutated in place and used where an alias could be created")
 
@@ -1680,6 +1744,9 @@ class Fn:
     def translate(self):
         self.x6_prepare()                                     # x6: rewriting pass over the ast
         self.x7_prepare()                                     # x7: classmethods, exception objects
+        r9 = self.x9_prepare()                                # x9: tokenizer methods, `parse_email`
+        if r9 is not None:
+            return r9
         self.analyse()
         params = self.params()
         sig = " ".join(lname(p) for p in params)
@@ -1709,6 +1776,9 @@ class Fn:
         if getattr(self, "x7_mx", False):                                                      # x7: exception objects
             monad = X7_MX
             self.ctx.imports.add(X7_IMPORT)
+        if getattr(self, "x9_io", None):                                                       # x9: the message is the state
+            monad = X9_SM
+            self.ctx.imports.add(X9_IMPORT)
         if getattr(self, "has_while", False):
             self.ctx.loops.add(self.lean_name)
         if self.lean_name in self.ctx.recursive:                                               # x3: fuel
@@ -1748,6 +1818,8 @@ class Fn:
             self.emit(ind, f"let mut {n} := {rhs}" if rhs_pure else f"let mut {n} ← {rhs}")
 
     def stmt(self, st, ind):
+        if self.x9_stmt(st, ind):                            # x9
+            return
         if self.x7_stmt(st, ind):                            # x7
             return
         if self.x3_stmt(st, ind):
@@ -2254,6 +2326,8 @@ class Fn:
 
     def name(self, e):
         n = e.id
+        if n == getattr(self, "x9_io", None) and n not in self.bound_stack():        # x9: the message is the state of `PyX9.SM`
+            return False, "get"
         if n == getattr(self, "state_param", None) and n not in self.bound_stack():
             raise Unsupported(f"the {STATE_CLASS[1]} parameter used as a value")
         if n in self.bound_stack():
@@ -2390,7 +2464,7 @@ class Fn:
                 lv = self.val(l)
                 special = self.x3_in(lv, r)
                 if special is None:
-                    special = self.x4_in_constant(lv, r)         # x8: a named constant set in expression position as well
+                    special = self.x4_in_constant(lv, r)          # x8 / x9: a named constant set in a value context (`a in S and b`)
                 if special is not None:
                     neg = "!" if isinstance(op, ast.NotIn) else ""
                     return False, f"(do pure (PyVal.bool ({neg}(← {special}))))"
@@ -2568,6 +2642,9 @@ class Fn:
             if e.attr == "position":                                                                 # x3
                 self.x3_state_guard()
                 return False, "PyTok.position"
+            if e.attr in X9_STATE_FIELDS and getattr(self, "x9_tok", False):                          # x9
+                self.ctx.imports.add(X9_IMPORT)
+                return False, X9_STATE_FIELDS[e.attr]
             raise Unsupported(f"attribute .{e.attr} of the {STATE_CLASS[1]}")
         if e.attr == "__name__" and isinstance(base, ast.Attribute) and base.attr == "__class__":       # x3
             return True, f"(PyVal.str (Py.ofString (PyRt.className {self.val(base.value)})))"
@@ -2638,6 +2715,9 @@ class Fn:
                     continue
                 raise Unsupported("**kwargs in a call")
             kws[k.arg] = k.value
+        r9 = self.x9_call(e, kws)                             # x9
+        if r9 is not None:
+            return r9
         r7 = self.x7_call(e, kws)                             # x7
         if r7 is not None:
             return r7
@@ -3037,6 +3117,8 @@ class Fn:
             for part in (d or [])[1:]:
                 obj = getattr(obj, part, None)
             if inspect.isclass(obj) and not (obj.__module__ or "").startswith("packaging"):
+                if getattr(self, "x9_mail", False) and obj.__module__ == "email.header" and obj.__name__ == "Header":
+                    return ["Header", "HeaderErr"]      # x9: a `Header` whose `decode_header` raises travels as `HeaderErr`
                 return [obj.__name__]
         raise Unsupported("class expression")
 
@@ -3303,6 +3385,8 @@ class Fn:
                         ok = True
                     elif isinstance(p_, (ast.If, ast.IfExp, ast.UnaryOp)):
                         ok = True
+                    elif self.x9_alias_ok(n, p_, parents):                     # x9
+                        ok = True
                     if not ok:
                         raise Unsupported(f"{m} is updated in place and used where an alias could be created")
             # a loop over the value may only replace the element it is at
@@ -3396,6 +3480,16 @@ class Fn:
 
     def x3_state_guard(self):
         """the primitives of PyTok.lean mirror one text of the Tokenizer class"""
+        if X9_TOKENIZER_TRANSLATED:          # x9: the methods are translated and proved equal to the primitives;
+            cls = getattr(importlib.import_module(STATE_CLASS[0]), STATE_CLASS[1])
+            init = inspect.getattr_static(cls, "__init__", None)       # the constructor alone stays a primitive (`PyTok.new`)
+            if not inspect.isfunction(init) or _fn_digest(init) != X9_TOKENIZER_INIT_GUARD:
+                raise Unsupported(f"the source of {STATE_CLASS[1]}.__init__ is not the text `PyTok.new` mirrors")
+            extra = [k for k, v in vars(cls).items() if (inspect.isfunction(v) or isinstance(v, (property, staticmethod, classmethod)))
+                     and k not in X9_TOKENIZER_METHODS]
+            if extra:                        # a method the theorems do not cover (e.g. `position` turned into a property)
+                raise Unsupported(f"{STATE_CLASS[1]} defines {', '.join(sorted(extra))} besides the translated methods")
+            return
         cls = getattr(importlib.import_module(STATE_CLASS[0]), STATE_CLASS[1])
         if _class_digest(cls) != STATE_GUARD:
             raise Unsupported(f"the source of {STATE_CLASS[1]} is not the text its run-time primitives mirror")
@@ -4781,7 +4875,8 @@ class Fn:
 
     # ---- x7: exception objects, classmethods, the descriptor protocol (metadata.py)
     def x7_msg_obj_params(self_):
-        return [a.arg for a in self_.node.args.args if isinstance(a.annotation, ast.Attribute) and _dotted(a.annotation) == X7_MESSAGE_ANN]
+        return [a.arg for a in self_.node.args.args if isinstance(a.annotation, ast.Attribute) and _dotted(a.annotation) == X7_MESSAGE_ANN] \
+            + ([self_.x9_io] if getattr(self_, "x9_io", None) else [])                 # x9: the message that is the state
 
     def x7_prepare_messages(self):
         """`del msg[k]` on a parameter annotated `email.message.Message` rebinds the parameter (`msg = __x7_msg_del(msg, k)`); the
@@ -5181,6 +5276,566 @@ class Fn:
         if bad:
             raise Unsupported("a local changed inside a try block is read on the path through its handler: " + ", ".join(sorted(bad)))
     # ================================================================================================ x7 end
+
+    # ================================================================================================ x9
+    # (a) methods of the tokenizer: `self` is the state of `PyTok.TM`; a rewriting pass (`_X9TokRewrite`) turns the accesses to
+    #     its fields into pseudo-calls `__x9_*` (translated by `x9_call`); the generator of `enclosing_tokens` is cut at its `yield`
+    # (b) `parse_email`: see `_X9MailRewrite`
+    def x9_prepare(self):
+        self.x9_tok = _x9_is_state_method(self.pyfunc)
+        self.x9_mail = (self.pyfunc.__module__, self.pyfunc.__qualname__) in X9_MAIL_FUNCTIONS
+        self.x9_io = self.ctx.x9_io.get(self.lean_name)          # name of the message parameter that is the state of `PyX9.SM`
+        if self.x9_tok:
+            self.ctx.imports.add(X9_IMPORT)
+            part = self.lean_name.rsplit("__", 1)[-1] if "__" in self.lean_name else None
+            if part == "with":
+                return self.x9_with_text()
+            if part in ("enter", "exit"):
+                self.node, self.x9_arity = _x9_split_generator(self.node, part)
+            self.node = _X9TokRewrite(self).run(self.node)
+        if self.x9_mail or self.x9_io:
+            self.ctx.imports.add(X9_IMPORT)
+            self.x9_mail_prepare()
+        return None
+
+    def x9_with_text(self):
+        """`with self.enclosing_tokens(o, c, around=a): self.consume(body)` from the two translated halves (for `src.call`)"""
+        node, _ = _x9_split_generator(self.node, "exit")
+        live = [a.arg for a in node.args.args[1:]][:len(node.args.args) - len(self.node.args.args)]
+        if len(live) != 1:
+            raise Unsupported("enclosing_tokens keeps other than one local across its yield")
+        self.ctx.state_fns.add(self.lean_name)
+        self.ctx.imports.add(STATE_IMPORT)
+        self.x9_arity = len(self.params()) + 1
+        base = self.lean_name.rsplit("__", 1)[0]
+        for part in ("enter", "exit"):
+            self.ctx.deps.setdefault(self.ctx.current, set()).add(f"{base}__{part}")
+        ps = " ".join(lname(p) for p in self.params()[1:])
+        return (f"def {self.lean_name} ({ps} body : PyVal) : {STATE_MONAD} PyVal := do\n"
+                f"  let __w ← {base}__enter {ps}\n"
+                f"  let _ ← PyTok.consume body\n"
+                f"  {base}__exit __w {ps}")
+
+    def x9_call(self, e, kws):
+        f = e.func
+        if isinstance(f, ast.Name) and f.id.startswith("__x9_"):
+            self.ctx.imports.add(X9_IMPORT)
+            a = e.args
+            simple = {"__x9_set_next_token": "PyX9.set_next_token", "__x9_advance": "PyX9.advance", "__x9_has_rule": "PyX9.has_rule",
+                      "__x9_rule_match": "PyX9.rule_match", "__x9_match_group0": "PyX9.match_group0",
+                      "__x9_msg_keys": "PyX9.msg_keys", "__x9_msg_get_all": "PyX9.msg_get_all", "__x9_decode_header": "PyX9.decode_header",
+                      "__x9_make_header_str": "PyX9.make_header_str", "__x9_msg_get_payload": "PyX7.msg_get_payload",
+                      "__x9_setdefault_append": "PyX9.dict_setdefault_append", "__x9_setdefault_extend": "PyX9.dict_setdefault_extend",
+                      "__x9_item_append": "PyX9.dict_item_append"}
+            if f.id in simple:
+                return False, simple[f.id] + "".join(" " + self.val(x) for x in a)
+            if f.id == "__x9_parse_message":         # the standard-library parser: an oracle call under the source text of the call
+                return False, f'PyRt.ext_call {self.use_ext()} "{a[0].value}" [{self.val(a[1])}]'
+            if f.id == "__x9_str_set":
+                self.ctx.imports.add("PkgModel.PyRx")
+                return False, f'PyRx.set_of "{a[0].value}" PyRx.eq_plain {self.val(a[1])}'
+            if f.id == "__x9_dict_pop":
+                return False, f"PyRt.dict_pop {self.val(a[0])} {self.val(a[1])}"
+            raise Unsupported(f"pseudo-call {f.id}")
+        # a dataclass of the tokenizer module built from all its fields (positional and keyword arguments, in field order)
+        if getattr(self, "x9_tok", False) and isinstance(f, ast.Name) and f.id not in self.locals:
+            import dataclasses
+            v = self.globals.get(f.id)
+            if inspect.isclass(v) and dataclasses.is_dataclass(v) and v.__module__ == STATE_CLASS[0]:
+                names = [fl.name for fl in dataclasses.fields(v)]
+                given = names[:len(e.args)] + list(kws)
+                if given != names or any(isinstance(x, ast.Starred) for x in e.args):
+                    raise Unsupported(f"{v.__name__} built other than from all its fields in order")
+                vals = list(e.args) + [kws[k] for k in list(kws)]
+                fields = ", ".join(f'("{k}", {self.val(x)})' for k, x in zip(names, vals))
+                return True, f'(PyVal.obj "{v.__name__}" [{fields}])'
+        return None
+
+    def x9_stmt(self, st, ind):
+        if getattr(self, "x9_tok", False):
+            # `raise self.m(…)` for a method of the tokenizer: the call first (it raises); a value that came back is not an exception
+            if isinstance(st, ast.Raise) and isinstance(st.exc, ast.Call) and isinstance(st.exc.func, ast.Attribute) \
+                    and isinstance(st.exc.func.value, ast.Name) and st.exc.func.value.id == self.state_param and st.cause is None:
+                p, c = self.expr(st.exc)
+                self.emit(ind, f"let _ ← {c}")
+                self.emit(ind, "throw PyRt.typeError")
+                return True
+            # `raise ParserSyntaxError(message, source=…, span=…)`: the class only; the arguments are evaluated
+            if isinstance(st, ast.Raise) and isinstance(st.exc, ast.Call) and st.cause is None:
+                cls = self.exc_class(st.exc)
+                for x in list(st.exc.args) + [k.value for k in st.exc.keywords]:
+                    p, c = self.expr(x)
+                    if not p:
+                        self.emit(ind, f"let _ ← {c}")
+                self.emit(ind, f'throw "{cls}"')
+                return True
+            if isinstance(st, ast.Expr) and isinstance(st.value, ast.Call) and isinstance(st.value.func, ast.Name) \
+                    and st.value.func.id in ("__x9_set_next_token", "__x9_advance"):
+                p, c = self.expr(st.value)
+                self.emit(ind, f"let _ ← {c}")
+                return True
+        return self.x9_mail_stmt(st, ind)
+
+    # ---- x9 (b): `parse_email`
+    def x9_list_alias_ok(self, n, p, body):
+        """further uses of an owned list `x` that cannot make an in-place update visible elsewhere (only in `X9_MAIL_FUNCTIONS`):
+        an argument of an `__x9_*` primitive (they read); an argument of a library function annotated `-> dict[str, str]` /
+        `-> list[str]` (the result holds strings only); `d[k] = x` inside the loop body whose top level binds `x = []` afresh on
+        every iteration, when every in-place update of `x` comes textually before every such store (and no loop inside that body
+        contains both) — the stored list is never updated again"""
+        if not getattr(self, "x9_mail", False):
+            return False
+        if isinstance(p, ast.Call) and isinstance(p.func, ast.Name) and p.func.id.startswith("__x9_") and n in p.args:
+            return True
+        if isinstance(p, ast.Call) and isinstance(p.func, ast.Name) and n in p.args and p.func.id not in self.locals:
+            f = self.globals.get(p.func.id)
+            if inspect.isfunction(f) and (f.__module__ or "").startswith("packaging"):
+                try:
+                    r = ast.parse(textwrap.dedent(inspect.getsource(f))).body[0].returns
+                except (OSError, SyntaxError):
+                    r = None
+                if r is not None and ast.unparse(r) in ("dict[str, str]", "list[str]"):
+                    return True
+        if isinstance(p, ast.Assign) and p.value is n and len(p.targets) == 1 and isinstance(p.targets[0], ast.Subscript) \
+                and isinstance(p.targets[0].value, ast.Name):
+            x = n.id
+            loops = [l for l in _walk_scope(body) if isinstance(l, ast.For) and any(
+                isinstance(st, ast.Assign) and len(st.targets) == 1 and isinstance(st.targets[0], ast.Name) and st.targets[0].id == x
+                and isinstance(st.value, ast.List) and not st.value.elts for st in l.body)]
+            binds = [b for b in _walk_scope(body) if x in _targets_of(b)]
+            if len(loops) != 1 or len(binds) != 1:
+                return False
+            inner = list(_walk_scope(loops[0].body))
+            muts = [m for m in inner if isinstance(m, ast.Expr) and isinstance(m.value, ast.Call) and isinstance(m.value.func, ast.Attribute)
+                    and isinstance(m.value.func.value, ast.Name) and m.value.func.value.id == x]
+            stores = [a for a in inner if isinstance(a, ast.Assign) and isinstance(a.value, ast.Name) and a.value.id == x
+                      and isinstance(a.targets[0], ast.Subscript)]
+            all_muts = [m for m in _walk_scope(body) if isinstance(m, ast.Expr) and isinstance(m.value, ast.Call) and isinstance(m.value.func, ast.Attribute)
+                        and isinstance(m.value.func.value, ast.Name) and m.value.func.value.id == x]
+            if p not in stores or len(all_muts) != len(muts) or not muts:
+                return False
+            if max(m.end_lineno for m in muts) >= min(a.lineno for a in stores):
+                return False
+            for l in inner:                               # no loop inside the body holds both an update and a store
+                if isinstance(l, (ast.For, ast.While)):
+                    sub = list(_walk_scope(l.body))
+                    if any(m in sub for m in muts) and any(a in sub for a in stores):
+                        return False
+            # nothing after the loop reads x
+            after = [m for m in _walk_scope(body, into_exprs=True) if isinstance(m, ast.Name) and m.id == x and m.lineno > loops[0].end_lineno]
+            return not after
+        return False
+
+    def x9_alias_ok(self, n, p_, parents):
+        """uses of an owned dict that create no alias that is observed: the first argument of an `__x9_*` functional update, and
+        (through `cast` and a tuple display) the value of a `return` — nothing runs after it"""
+        if not getattr(self, "x9_mail", False):
+            return False
+        if isinstance(p_, ast.Call) and isinstance(p_.func, ast.Name) and p_.func.id.startswith("__x9_") and p_.args and p_.args[0] is n:
+            return True
+        q = p_
+        if isinstance(q, ast.Call) and isinstance(q.func, ast.Name) and q.func.id == "cast" and len(q.args) == 2 and q.args[1] is n:
+            q = parents.get(q)
+        elif q is not None and not isinstance(q, (ast.Tuple, ast.Return)):
+            return False
+        if isinstance(q, ast.Tuple):
+            q = parents.get(q)
+        return isinstance(q, ast.Return)
+
+    def x3_is_dict_ann_name(self, name):
+        """a local that is only bound by `name: dict[…] = …` / `name = {…}` (usable before the analyses have run)"""
+        binds = [n for n in _walk_scope(self.node.body) if name in _targets_of(n)]
+        return bool(binds) and all((isinstance(n, ast.AnnAssign) and self.x3_is_dict_ann(n.annotation))
+                                   or (isinstance(n, ast.Assign) and isinstance(n.value, ast.Dict)) for n in binds)
+
+    def x9_mail_prepare(self):
+        if self.x9_io:
+            # the message parameter is the state: it is no longer a parameter, reads are `get`, `del msg[k]` is a `set`
+            self.node.args.args = [a for a in self.node.args.args if a.arg != self.x9_io]
+            self.ctx.x9_sm.add(self.lean_name)
+            io = self.x9_io
+
+            class SetMsg(ast.NodeTransformer):               # x7 reads `del msg[k]` as `msg = __x7_msg_del(msg, k)`
+                def visit_Assign(self, node):
+                    if len(node.targets) == 1 and isinstance(node.targets[0], ast.Name) and node.targets[0].id == io:
+                        return ast.copy_location(ast.Expr(value=ast.Call(func=ast.Name(id="__x9_set_msg", ctx=ast.Load()),
+                                                                         args=[node.value], keywords=[])), node)
+                    return node
+            self.node = SetMsg().visit(self.node)
+            ast.fix_missing_locations(self.node)
+            if any(isinstance(n, ast.Name) and n.id == io and isinstance(n.ctx, ast.Store) for n in ast.walk(self.node)):
+                raise Unsupported("the message parameter is rebound")
+            return
+        self.x9_msgs = set()
+        self.node = _X9MailRewrite(self).run(self.node)
+
+    def x9_io_callee(self, call):
+        """`f(…, m, …)` where library function f changes the message it gets as that parameter and m is a message local:
+        -> (lean name of the `__io` translation, the local, the other argument expressions), else None"""
+        if not (isinstance(call, ast.Call) and isinstance(call.func, ast.Name) and call.func.id not in self.locals and not call.keywords):
+            return None
+        f = self.globals.get(call.func.id)
+        if not inspect.isfunction(f) or not (f.__module__ or "").startswith("packaging"):
+            return None
+        node = ast.parse(textwrap.dedent(inspect.getsource(f))).body[0]
+        ps = [a.arg for a in node.args.args if isinstance(a.annotation, ast.Attribute) and _dotted(a.annotation) == X7_MESSAGE_ANN]
+        changed = [p_ for p_ in ps if any(isinstance(n, ast.Delete) and any(isinstance(t, ast.Subscript) and isinstance(t.value, ast.Name)
+                                                                             and t.value.id == p_ for t in n.targets) for n in ast.walk(node))]
+        if len(changed) != 1 or node.args.kwonlyargs or node.args.vararg or len(call.args) != len(node.args.args):
+            return None
+        i = [a.arg for a in node.args.args].index(changed[0])
+        m = call.args[i]
+        if not (isinstance(m, ast.Name) and m.id in getattr(self, "x9_msgs", ())):
+            return None
+        name = f.__qualname__ + "__io"
+        if name not in self.ctx.x9_io:
+            import types
+            g = types.FunctionType(f.__code__, f.__globals__, f.__name__, f.__defaults__, f.__closure__)   # a second identity
+            g.__qualname__, g.__module__ = f.__qualname__, f.__module__
+            self.ctx.x9_io[name] = changed[0]
+            self.ctx.x9_io_idx[name] = i
+            self.ctx.x9_io_objs[name] = g
+            self.ctx.objs[id(g)] = name
+            self.ctx.funcs.append((name, g, None))
+        self.ctx.deps.setdefault(self.ctx.current, set()).add(name)
+        return name, m.id, [a for k, a in enumerate(call.args) if k != i]
+
+    def x9_mail_stmt(self, st, ind):
+        if self.x9_io:
+            # `del msg[k]`: the state changes
+            if isinstance(st, ast.Expr) and isinstance(st.value, ast.Call) and isinstance(st.value.func, ast.Name) \
+                    and st.value.func.id == "__x9_set_msg":
+                self.emit(ind, f"set {self.val(st.value.args[0])}")
+                return True
+            return False
+        if not getattr(self, "x9_mail", False):
+            return False
+        # an expression evaluated for its exceptions: `b.decode("utf8", "strict")`
+        if isinstance(st, ast.Expr) and isinstance(st.value, ast.Call) and isinstance(st.value.func, ast.Attribute) \
+                and st.value.func.attr == "decode":
+            p, c = self.expr(st.value)
+            self.emit(ind, f"let _ ← {c}")
+            return True
+        # functional updates of the owned dicts of lists
+        if isinstance(st, ast.Expr) and isinstance(st.value, ast.Call) and isinstance(st.value.func, ast.Name) \
+                and st.value.func.id in ("__x9_setdefault_append", "__x9_setdefault_extend", "__x9_item_append"):
+            d = st.value.args[0]
+            if not (isinstance(d, ast.Name) and d.id in getattr(self, "owned2", ()) and self.x3_is_dict_name(d.id)):
+                raise Unsupported("in-place update of a value inside a dict that is not an owned local")
+            p, c = self.expr(st.value)
+            self.emit(ind, f"{lname(d.id)} ← {c}")
+            return True
+        if isinstance(st, ast.Assign) and len(st.targets) == 1 and isinstance(st.targets[0], ast.Name) and isinstance(st.value, ast.Call) \
+                and isinstance(st.value.func, ast.Name) and st.value.func.id == "__x9_dict_pop":
+            d = st.value.args[0]
+            if not (isinstance(d, ast.Name) and d.id in getattr(self, "owned2", ()) and self.x3_is_dict_name(d.id)):
+                raise Unsupported("pop on a dict that is not an owned local")
+            t = self.fresh("pop")
+            self.emit(ind, f"let {t} ← PyRt.dict_pop {lname(d.id)} {self.val(st.value.args[1])}")
+            self.emit(ind, f"{lname(d.id)} := {t}.2")
+            self.assign_name(st.targets[0].id, True, f"{t}.1", ind)
+            return True
+        # `try: x = f(msg, …)  except C: …  else: …` where f changes the message: no Lean `try` (its handler would see the locals —
+        # and the message — of the `try` start); the call is run on the message as state and its outcome is matched
+        if isinstance(st, ast.Try) and not st.finalbody and len(st.body) == 1 and isinstance(st.body[0], ast.Assign) \
+                and len(st.body[0].targets) == 1 and isinstance(st.body[0].targets[0], ast.Name):
+            io = self.x9_io_callee(st.body[0].value)
+            if io is not None:
+                name, msg, rest = io
+                target = st.body[0].targets[0].id
+                r, e, v = self.fresh("r"), self.fresh("e"), self.fresh("v")
+                args = "".join(" " + self.val(a) for a in rest)
+                self.emit(ind, f"let {r} := PyX9.runSM ({name}{args}) {lname(msg)}")
+                self.emit(ind, f"{lname(msg)} := {r}.2")
+                self.emit(ind, f"match {r}.1 with")
+                self.emit(ind, f"| .ok {v} =>")
+                saved = set(self.declared)
+                self.assign_name(target, True, v, ind + 1)
+                self.block(st.orelse, ind + 1)
+                self.declared = set(saved) | (self.declared & set(self.hoisted))
+                self.emit(ind, f"| .error {e} =>")
+                first = True
+                for h in st.handlers:
+                    if h.name is not None:
+                        raise Unsupported("the caught exception object is used")
+                    classes = self.handler_classes(h.type)
+                    test = " || ".join(f'PyRt.catches "{c}" {e}' for c in classes)
+                    self.emit(ind + 1, ("if " if first else "else if ") + test + " then")
+                    first = False
+                    self.block(h.body, ind + 2)
+                    self.declared = set(saved) | (self.declared & set(self.hoisted))
+                self.emit(ind + 1, f"else throw {e}")
+                return True
+        return False
+    # ================================================================================================ x9 end
+
+
+# ---------------------------------------------------------------------------------------------- x9: tokenizer methods
+def _x9_is_state_method(f):
+    qn = (getattr(f, "__qualname__", "") or "").split(".")
+    return getattr(f, "__module__", None) == STATE_CLASS[0] and len(qn) == 2 and qn[0] == STATE_CLASS[1]
+
+
+def _x9_split_generator(node, part):
+    """the function behind `@contextlib.contextmanager`, cut at its one top-level `yield`: the `enter` half returns the locals that
+    are live across the `yield` (one local: itself; otherwise a tuple), the `exit` half takes them as its first parameters.
+    -> (function node, arity including `self`)"""
+    import copy
+    node = copy.deepcopy(node)
+    idx = [i for i, st in enumerate(node.body) if isinstance(st, ast.Expr) and isinstance(st.value, ast.Yield) and st.value.value is None]
+    ys = [n for n in ast.walk(node) if isinstance(n, (ast.Yield, ast.YieldFrom))]
+    if len(idx) != 1 or len(ys) != 1:
+        raise Unsupported("a context manager with other than one top-level bare `yield`")
+    before, after = node.body[:idx[0]], node.body[idx[0] + 1:]
+    if any(isinstance(n, ast.Return) for st in before for n in ast.walk(st)):
+        raise Unsupported("return before the yield of a context manager")
+    params = {a.arg for a in node.args.args + node.args.kwonlyargs}
+    assigned = []
+    for st in before:
+        for n in ast.walk(st):
+            if isinstance(n, ast.Name) and isinstance(n.ctx, ast.Store) and n.id not in assigned and n.id not in params:
+                assigned.append(n.id)
+    used = {n.id for st in after for n in ast.walk(st) if isinstance(n, ast.Name) and isinstance(n.ctx, ast.Load)}
+    live = [v for v in assigned if v in used]
+    if any(isinstance(n, ast.Name) and isinstance(n.ctx, ast.Store) and n.id in params for st in before for n in ast.walk(st)):
+        raise Unsupported("a parameter rebound before the yield of a context manager")
+    node.decorator_list = []
+    node.returns = None
+    nself = len(node.args.args) + len(node.args.kwonlyargs)
+    if part == "enter":
+        ret = ast.Name(id=live[0], ctx=ast.Load()) if len(live) == 1 else ast.Tuple(elts=[ast.Name(id=v, ctx=ast.Load()) for v in live], ctx=ast.Load())
+        node.body = before + [ast.Return(value=ret)]
+        arity = nself
+    else:
+        node.args.args = [node.args.args[0]] + [ast.arg(arg=v, annotation=None) for v in live] + node.args.args[1:]
+        node.body = after or [ast.Pass()]
+        arity = nself + len(live)
+    ast.fix_missing_locations(node)
+    return node, arity
+
+
+class _X9TokRewrite(ast.NodeTransformer):
+    """x9: the fields of the tokenizer inside its own methods.  `self.next_token = e` -> `__x9_set_next_token(e)`,
+    `self.position += e` -> `__x9_advance(e)`, `k in self.rules` -> `__x9_has_rule(k)`,
+    `self.rules[k].match(self.source, self.position)` (also through a local bound once to `self.rules[k]` and used once, as the
+    receiver of that call, in the next statement) -> `__x9_rule_match(k)`, `m.group(0)` on a local bound once by such a match ->
+    `__x9_match_group0(m)`.  Any other use of `self.rules` is left alone (and refused)."""
+
+    def __init__(self, fn):
+        self.fn = fn
+        self.me = fn.node.args.args[0].arg
+
+    def is_field(self, e, attr):
+        return isinstance(e, ast.Attribute) and e.attr == attr and isinstance(e.value, ast.Name) and e.value.id == self.me
+
+    def call(self, name, *args):
+        return ast.Call(func=ast.Name(id=name, ctx=ast.Load()), args=list(args), keywords=[])
+
+    def run(self, node):
+        self.inline_rule_locals(node)
+        node = self.visit(node)
+        # locals bound once, by a rule match
+        self.match_locals = set()
+        for n in ast.walk(node):
+            if isinstance(n, ast.Assign) and len(n.targets) == 1 and isinstance(n.targets[0], ast.Name) and isinstance(n.value, ast.Call) \
+                    and isinstance(n.value.func, ast.Name) and n.value.func.id == "__x9_rule_match":
+                v = n.targets[0].id
+                if sum(1 for m in ast.walk(node) if isinstance(m, ast.Name) and m.id == v and isinstance(m.ctx, ast.Store)) == 1:
+                    self.match_locals.add(v)
+        me = self
+
+        class G(ast.NodeTransformer):
+            def visit_Call(self, c):
+                self.generic_visit(c)
+                if isinstance(c.func, ast.Attribute) and c.func.attr == "group" and isinstance(c.func.value, ast.Name) \
+                        and c.func.value.id in me.match_locals and len(c.args) == 1 and not c.keywords \
+                        and isinstance(c.args[0], ast.Constant) and c.args[0].value == 0 and c.args[0].value is not False:
+                    return ast.copy_location(me.call("__x9_match_group0", c.func.value), c)
+                return c
+
+            def visit_Subscript(self, c):
+                self.generic_visit(c)
+                if isinstance(c.ctx, ast.Load) and isinstance(c.value, ast.Name) and c.value.id in me.match_locals \
+                        and isinstance(c.slice, ast.Constant) and c.slice.value == 0 and c.slice.value is not False:
+                    return ast.copy_location(me.call("__x9_match_group0", c.value), c)
+                return c
+        node = G().visit(node)
+        ast.fix_missing_locations(node)
+        return node
+
+    def inline_rule_locals(self, node):
+        """`x = self.rules[k]` directly followed by a statement whose only use of `x` is `x.match(self.source, self.position)`,
+        `x` bound once and used once: the look-up moves into the call (nothing is evaluated in between)"""
+        for parent in ast.walk(node):
+            for field in ("body", "orelse", "finalbody"):
+                body = getattr(parent, field, None)
+                if not isinstance(body, list):
+                    continue
+                i = 0
+                while i + 1 < len(body):
+                    st = body[i]
+                    if isinstance(st, ast.Assign) and len(st.targets) == 1 and isinstance(st.targets[0], ast.Name) \
+                            and isinstance(st.value, ast.Subscript) and self.is_field(st.value.value, "rules"):
+                        x = st.targets[0].id
+                        stores = [m for m in ast.walk(node) if isinstance(m, ast.Name) and m.id == x and isinstance(m.ctx, ast.Store)]
+                        loads = [m for m in ast.walk(node) if isinstance(m, ast.Name) and m.id == x and isinstance(m.ctx, ast.Load)]
+                        nxt = body[i + 1]
+                        calls = [c for c in ast.walk(nxt) if isinstance(c, ast.Call) and isinstance(c.func, ast.Attribute)
+                                 and c.func.attr == "match" and isinstance(c.func.value, ast.Name) and c.func.value.id == x]
+                        first = nxt.value if isinstance(nxt, (ast.Assign, ast.Expr, ast.Return)) else None
+                        if len(stores) == 1 and len(loads) == 1 and len(calls) == 1 and first is calls[0]:
+                            calls[0].func.value = st.value
+                            del body[i]
+                            continue
+                    i += 1
+
+    def visit_Assign(self, node):
+        self.generic_visit(node)
+        if len(node.targets) == 1 and self.is_field(node.targets[0], "next_token"):
+            return ast.copy_location(ast.Expr(value=self.call("__x9_set_next_token", node.value)), node)
+        return node
+
+    def visit_AugAssign(self, node):
+        self.generic_visit(node)
+        if self.is_field(node.target, "position") and isinstance(node.op, ast.Add):
+            return ast.copy_location(ast.Expr(value=self.call("__x9_advance", node.value)), node)
+        return node
+
+    def visit_Compare(self, node):
+        self.generic_visit(node)
+        if len(node.ops) == 1 and isinstance(node.ops[0], (ast.In, ast.NotIn)) and self.is_field(node.comparators[0], "rules"):
+            c = ast.copy_location(self.call("__x9_has_rule", node.left), node)
+            return c if isinstance(node.ops[0], ast.In) else ast.copy_location(ast.UnaryOp(op=ast.Not(), operand=c), node)
+        return node
+
+    def visit_Call(self, node):
+        self.generic_visit(node)
+        f = node.func
+        if isinstance(f, ast.Attribute) and f.attr == "match" and isinstance(f.value, ast.Subscript) and self.is_field(f.value.value, "rules") \
+                and len(node.args) == 2 and not node.keywords and self.is_field(node.args[0], "source") and self.is_field(node.args[1], "position"):
+            return ast.copy_location(self.call("__x9_rule_match", f.value.slice), node)
+        return node
+
+
+class _X9MailRewrite(ast.NodeTransformer):
+    """x9: `parse_email` — see the comment at `X9_MAIL_FUNCTIONS`.  Every rewrite keeps Python's evaluation order."""
+
+    def __init__(self, fn):
+        self.fn = fn
+        self.n = 0
+
+    def call(self, name, *args):
+        return ast.Call(func=ast.Name(id=name, ctx=ast.Load()), args=list(args), keywords=[])
+
+    def is_stdlib(self, e, dotted):
+        d = _dotted(e)
+        return d == dotted and d[0] not in self.fn_locals and inspect.ismodule(self.fn.globals.get(d[0])) \
+            and self.fn.globals[d[0]].__name__ == d[0]
+
+    def run(self, node):
+        self.fn_locals = {n.id for n in ast.walk(node) if isinstance(n, ast.Name) and isinstance(n.ctx, ast.Store)} \
+            | {a.arg for a in node.args.args}
+        # locals bound (only) by the standard-library parser
+        for n in ast.walk(node):
+            if isinstance(n, ast.Assign) and len(n.targets) == 1 and isinstance(n.targets[0], ast.Name) and self.parser_call(n.value) is not None:
+                self.fn.x9_msgs.add(n.targets[0].id)
+        for v in list(self.fn.x9_msgs):
+            binds = [n for n in ast.walk(node) if isinstance(n, (ast.Assign, ast.AnnAssign, ast.AugAssign, ast.For, ast.With))
+                     and v in _targets_of(n)]
+            if not all(isinstance(b, ast.Assign) and self.parser_call(b.value) is not None for b in binds):
+                self.fn.x9_msgs.discard(v)
+        node = self.visit(node)
+        ast.fix_missing_locations(node)
+        return node
+
+    def parser_call(self, e):
+        """`email.parser.Parser(…).parsestr(x, …)` / `email.parser.BytesParser(…).parsebytes(x, …)` with `x` a plain name and every
+        other argument a constant or a dotted name: -> (key, x); the key is the source text of the call with `x` blanked"""
+        if not (isinstance(e, ast.Call) and isinstance(e.func, ast.Attribute) and e.func.attr in ("parsestr", "parsebytes")
+                and isinstance(e.func.value, ast.Call) and len(e.args) >= 1 and isinstance(e.args[0], ast.Name)):
+            return None
+        ctor = e.func.value
+        d = _dotted(ctor.func)
+        if d not in (["email", "parser", "Parser"], ["email", "parser", "BytesParser"]) or not inspect.ismodule(self.fn.globals.get("email")):
+            return None
+        def plain(x):
+            return isinstance(x, ast.Constant) or _dotted(x) is not None
+        if not all(plain(a) for a in ctor.args) or not all(plain(k.value) for k in ctor.keywords) \
+                or not all(plain(a) for a in e.args[1:]) or not all(plain(k.value) for k in e.keywords):
+            return None
+        import copy
+        c = copy.deepcopy(e)
+        c.args[0] = ast.Name(id="_", ctx=ast.Load())
+        return ast.unparse(c), e.args[0]
+
+    def visit_Call(self, node):
+        pc = self.parser_call(node)
+        if pc is not None:
+            return ast.copy_location(self.call("__x9_parse_message", ast.Constant(value=pc[0]), pc[1]), node)
+        self.generic_visit(node)
+        f = node.func
+        if isinstance(f, ast.Attribute) and isinstance(f.value, ast.Name) and f.value.id in self.fn.x9_msgs:
+            if f.attr == "keys" and not node.args and not node.keywords:
+                return ast.copy_location(self.call("__x9_msg_keys", f.value), node)
+            if f.attr == "get_all" and len(node.args) == 1 and not node.keywords:
+                return ast.copy_location(self.call("__x9_msg_get_all", f.value, node.args[0]), node)
+            if f.attr == "get_payload" and not node.args and [k.arg for k in node.keywords] in ([], ["decode"]):
+                d = node.keywords[0].value if node.keywords else ast.Constant(value=False)
+                return ast.copy_location(self.call("__x9_msg_get_payload", f.value, d), node)
+        # `frozenset(msg.keys())` / `set(…)`: a set of header names (plain `==`)
+        if isinstance(f, ast.Name) and f.id in ("frozenset", "set") and f.id not in self.fn_locals and len(node.args) == 1 and not node.keywords \
+                and isinstance(node.args[0], ast.Call) and isinstance(node.args[0].func, ast.Name) and node.args[0].func.id == "__x9_msg_keys":
+            return ast.copy_location(self.call("__x9_str_set", ast.Constant(value=f.id), node.args[0]), node)
+        if isinstance(f, ast.Attribute) and self.is_stdlib(f, ["email", "header", "decode_header"]) and len(node.args) == 1 and not node.keywords:
+            return ast.copy_location(self.call("__x9_decode_header", node.args[0]), node)
+        if isinstance(f, ast.Name) and f.id == "str" and "str" not in self.fn_locals and len(node.args) == 1 and not node.keywords:
+            a = node.args[0]
+            if isinstance(a, ast.Call) and isinstance(a.func, ast.Attribute) and self.is_stdlib(a.func, ["email", "header", "make_header"]) \
+                    and len(a.args) == 1 and not a.keywords:
+                return ast.copy_location(self.call("__x9_make_header_str", a.args[0]), node)
+        # `cast(T, d.pop(k))` / `d.pop(k)`
+        if isinstance(f, ast.Attribute) and f.attr == "pop" and isinstance(f.value, ast.Name) and len(node.args) == 1 and not node.keywords \
+                and self.fn.x3_is_dict_ann_name(f.value.id):
+            return ast.copy_location(self.call("__x9_dict_pop", f.value, node.args[0]), node)
+        return node
+
+    def visit_Assign(self, node):
+        self.generic_visit(node)
+        v = node.value                         # `x = cast(T, __x9_dict_pop(d, k))`: the cast is the identity
+        if isinstance(v, ast.Call) and isinstance(v.func, ast.Name) and v.func.id == "cast" and len(v.args) == 2 \
+                and isinstance(v.args[1], ast.Call) and isinstance(v.args[1].func, ast.Name) and v.args[1].func.id == "__x9_dict_pop":
+            node.value = v.args[1]
+        return node
+
+    def visit_Expr(self, node):
+        self.generic_visit(node)
+        c = node.value
+        # `d.setdefault(k, []).append(x)` / `.extend(xs)`, `d[k].append(x)` on a dict local
+        if isinstance(c, ast.Call) and isinstance(c.func, ast.Attribute) and c.func.attr in ("append", "extend") and len(c.args) == 1 and not c.keywords:
+            r = c.func.value
+            if isinstance(r, ast.Call) and isinstance(r.func, ast.Attribute) and r.func.attr == "setdefault" and isinstance(r.func.value, ast.Name) \
+                    and self.fn.x3_is_dict_ann_name(r.func.value.id) and len(r.args) == 2 and not r.keywords \
+                    and isinstance(r.args[1], ast.List) and not r.args[1].elts:
+                return ast.copy_location(ast.Expr(value=self.call("__x9_setdefault_" + c.func.attr, r.func.value, r.args[0], c.args[0])), node)
+            if isinstance(r, ast.Subscript) and isinstance(r.value, ast.Name) and self.fn.x3_is_dict_ann_name(r.value.id) \
+                    and not isinstance(r.slice, ast.Slice) and c.func.attr == "append":
+                return ast.copy_location(ast.Expr(value=self.call("__x9_item_append", r.value, r.slice, c.args[0])), node)
+        return node
+
+    def visit_For(self, node):
+        self.generic_visit(node)
+        # a tuple target with a component that the body rebinds: fresh components, then plain assignments
+        if isinstance(node.target, ast.Tuple) and all(isinstance(e, ast.Name) for e in node.target.elts):
+            rebound = {n for s_ in _walk_scope(node.body) for n in _targets_of(s_)}
+            pre = []
+            for i, e in enumerate(node.target.elts):
+                if e.id in rebound:
+                    self.n += 1
+                    fresh = f"__x9_t{self.n}"
+                    pre.append(ast.Assign(targets=[ast.Name(id=e.id, ctx=ast.Store())], value=ast.Name(id=fresh, ctx=ast.Load())))
+                    node.target.elts[i] = ast.Name(id=fresh, ctx=ast.Store())
+            node.body = pre + node.body
+        return node
 
 
 # ---------------------------------------------------------------------------------------------- x6: the rewriting pass
@@ -5849,6 +6504,10 @@ class Ctx:
         self.state_fns = set()     # x3: lean names of functions that run in the state monad
         self.x7_mx = set()         # x7: lean names of functions that run in PyX7.MX (exception objects)
         self.x7_clsmethods = set() # x7: lean names of classmethods (their `cls` parameter is dropped)
+        self.x9_io = {}            # x9: lean name -> the message parameter that is the state of `PyX9.SM`
+        self.x9_io_objs = {}       # x9: lean name -> the (copied) function object of that second translation
+        self.x9_sm = set()         # x9: lean names of functions that run in `PyX9.SM`
+        self.x9_io_idx = {}        # x9: lean name -> index of that parameter
         self.loops = set()         # x3: lean names of functions with a `while` loop (they take fuel as well)
         self.dispatchers = {}      # name -> Lean definition text
         self.dispatcher_deps = {}
@@ -6032,6 +6691,8 @@ class Ctx:
     # -- functions
     def is_state_fn(self, f):
         """x3: the first parameter is annotated with the state class (`tokenizer: Tokenizer`)"""
+        if _x9_is_state_method(f):                            # x9: a method of the state class (`self` is the state)
+            return True
         try:
             node = ast.parse(textwrap.dedent(inspect.getsource(f))).body[0]
         except (OSError, SyntaxError, TypeError):
@@ -6126,7 +6787,10 @@ def _translate_all(ctx):
         if obj is not None:
             try:
                 arities[lean_name] = _arity(obj)
-                text = Fn(ctx, lean_name, obj).translate()
+                fn_ = Fn(ctx, lean_name, obj)
+                text = fn_.translate()
+                if getattr(fn_, "x9_arity", None) is not None:       # x9: a part of a split generator has parameters of its own
+                    arities[lean_name] = fn_.x9_arity
                 missing = _missing_runtime(text)
                 if missing:
                     # containment: a call the run-time has no primitive for must not reach the Lean build (it would
@@ -6155,6 +6819,11 @@ def _translate_all(ctx):
             if obj is not None and ctx.x7_is_clsmethod(obj):
                 ctx.x7_clsmethods.add(lean_name)
                 n -= 1
+            if lean_name in ctx.x9_io:                               # x9
+                ctx.x9_sm.add(lean_name)
+                ctx.imports.add(X9_IMPORT)
+                n -= 1
+                monad = X9_SM
             params = " ".join(f"_a{i}" for i in range(n))
             env = "(_env : PyRt.Env) " if lean_name in ctx.uses_env else ""
             env += "(_ext : PyRt.Oracle) " if lean_name in ctx.uses_ext else ""
@@ -6313,6 +6982,10 @@ def _assemble(ctx, defs, info, arities):
         else:
             call = n + (" (PyRt.envOf e)" if n in ctx.uses_env else "") + (" (PyRt.oracleOf x)" if n in ctx.uses_ext else "") \
                 + "".join(f" a{i}" for i in range(k))
+        if n in ctx.x9_sm:                       # x9: the message travels as argument `idx` and comes back with the result
+            idx = ctx.x9_io_idx[n]
+            call = "PyX9.runWireSM (" + n + (" (PyRt.envOf e)" if n in ctx.uses_env else "") + (" (PyRt.oracleOf x)" if n in ctx.uses_ext else "") \
+                + "".join(f" a{i}" for i in range(k) if i != idx) + f") a{idx}"
         if n in ctx.x7_mx:                       # x7: an escaping exception object is answered as a value
             call = "PyX7.runX (" + call + ")"
         pats = ", ".join((["e"] if n in ctx.uses_env else []) + (["x"] if n in ctx.uses_ext else []) + [f"a{i}" for i in range(k)])
